@@ -30,6 +30,24 @@ bool inf_only = false, timing_verdicts = false;
 const uint64_t T_US[] = {1, 20, 50, 100, 150, 200, 400, 1000, 3000};
 
 void gen_plan() {
+    if (sim::rnd(6) == 0 && !hx::param("no_choreo", 0)) {
+        // a writer holds the lock for X us; on another vCPU a reader asks for it with a timeout that ends right when the writer
+        // lets go; a second writer queues behind the reader: unlock() and the reader's timeout meet at the head of the queue
+        W.nvcpu = 3; n_workers = 3 + sim::rnd(2);
+        locks.resize(1); locks[0].q = 0; locks[0].rw = new rwlock();
+        inf_only = false;
+        scripts.resize(n_workers); intr_sent.assign(n_workers, 0);
+        uint64_t X = T_US[3 + sim::rnd(5)], p1 = T_US[sim::rnd(3)], p2 = p1 + T_US[sim::rnd(3)];
+        auto acq = [&](int wr, int how, uint64_t tmo, int hold, uint64_t hold_us) { Op o; o.idx = n_ops++; o.k = OP_ACQ; o.lock = 0; o.wr = wr; o.how = how; o.timeout_us = tmo; o.hold = hold; o.hold_us = hold_us; return o; };
+        auto pause = [&](uint64_t us) { Op o; o.idx = n_ops++; o.k = OP_PAUSE; o.pause_us = us; return o; };
+        scripts[0].push_back(acq(1, 0, 0, 2, X));                                                     // the holder: lock W, sleep X, unlock
+        scripts[1].push_back(pause(p1)); scripts[1].push_back(acq(0, 2, X > p1 ? X - p1 : 1, 1, 20)); // the reader whose deadline is the unlock
+        scripts[2].push_back(pause(p2)); scripts[2].push_back(acq(1, 0, 0, 1, 20));                    // the writer behind it
+        for (int t = 3; t < n_workers; t++) { scripts[t].push_back(pause(p2 + T_US[sim::rnd(4)])); scripts[t].push_back(acq(sim::rnd(2), sim::rnd(2) ? 0 : 2, T_US[3 + sim::rnd(6)], 1, 20)); }
+        for (int t = 0; t < n_workers; t++) W.add(t < 3 ? t : (int)sim::rnd(3), [t](int) { run_script(t); });
+        sim::probe("unlock_meets_timeout_choreography");
+        return;
+    }
     W.nvcpu = 1 + sim::rnd(3);
     n_workers = 2 + sim::rnd(6);
     int nlocks = 1 + (sim::rnd(4) == 0);
